@@ -184,4 +184,22 @@ def rstep (s : RState) : PEv → RState
 
 def rrun (s : RState) (evs : List PEv) : RState := evs.foldl rstep s
 
+/-! ### `Close` called more than once -/
+
+/-- the writer machine plus the one piece of state `Close` adds: has the gzip field been cleared (`grw.gzipWriter = nil`
+after the `Put`). `Close` is exported: the wrapped handler, or a direct user of `NewGzipResponseWriter`, may call it
+any number of times before the deferred call. -/
+structure GWC (Z : Type) where
+  s : GW Z
+  released : Bool
+
+/-- `grw.Close()` as repaired: everything under "the gzip field is set". -/
+def GWC.close (C : Cfg Z) (x : GWC Z) : GWC Z :=
+  if x.released then x else { s := GW.close C x.s, released := x.s.dec.isGzip }
+
+/-- `n` calls. -/
+def GWC.closeN (C : Cfg Z) : Nat → GWC Z → GWC Z
+  | 0, x => x
+  | n + 1, x => GWC.closeN C n (GWC.close C x)
+
 end Fabio.Model.C17
